@@ -14,7 +14,7 @@ ids = [json.loads(l)["id"] for l in open(os.path.join(HERE, "properties.jsonl"))
 hooks = subprocess.run(["git", "-C", "/repo", "log", "--format=%h %s"], stdout=subprocess.PIPE, text=True).stdout.splitlines()
 hook_commits = [l.split()[0] for l in hooks if l.split(" ", 1)[1].startswith("verif hook")]
 
-ENGINE_OF = {"cluster": "clustersim", "logsim": "logsim", "smsim": "smsim"}
+ENGINE_OF = {"cluster": "clustersim", "logsim": "logsim", "smsim": "smsim", "mergesim": "mergesim"}
 checks = []
 for pid in ids:
     if pid not in PROPS:
@@ -57,6 +57,8 @@ m = {
          "kind_free_text": "E2: one BufferedRaftLog / LogStore / MetaStore under operation plans with crashes"},
         {"name": "smsim", "path": "/verif/sim (dsim smsim)", "serves_properties": [p for p in ids if p in PROPS and PROPS[p].get("engine") == "smsim"],
          "kind_free_text": "E3: one state machine / handler / watch stack under command plans with crashes"},
+        {"name": "mergesim", "path": "/verif/sim (dsim mergesim)", "serves_properties": [p for p in ids if p in PROPS and PROPS[p].get("engine") == "mergesim"],
+         "kind_free_text": "E1 variant: two real follower nodes fed the same AppendEntries sequence, in bursts vs one at a time"},
     ],
     "checks": checks,
     "notes": "Every check rebuilds /verif/sim (which compiles /repo's working tree with --cfg d_engine_verif), fans seeded runs out over 16 "
